@@ -8,6 +8,8 @@ inductive Op where
   | blk (b : Block) (now : Option Int)
   /-- no broadcast task may be overdue at `now` unless it stops silently -/
   | flush (now : Int)
+  /-- `_async_broadcast_service` of info `oid` returned at `now`: if its task is still pending in the model (due now), it must stop here -/
+  | stop (oid : Nat) (ttl : Option Nat) (addresses : Bool) (now : Int)
 
 def parseEntry : Tok (Rec × List Rec) := do
   let k ← Rec.parse
@@ -31,6 +33,7 @@ def parseOp : Tok Op := do
   | "alls" => do let now ← Tok.int; pure (.blk (.allStep now) none)
   | "close" => pure (.blk .close none)
   | "flush" => do let now ← Tok.int; pure (.flush now)
+  | "stop" => do let oid ← Tok.nat; let ttl ← Tok.optNat; let ad ← Tok.bool; let now ← Tok.int; pure (.stop oid ttl ad now)
   | _ => failure
 
 def pktsStr (ps : List Pkt) : String := if ps.isEmpty then "-" else ";".intercalate (ps.map Pkt.canon)
@@ -47,6 +50,12 @@ def runOps : Host → List Op → List String → List String
     let (h', n) := flushTasks h now
     let closeLate := h.closing.any (fun a => decide (a.due < now))
     runOps h' ops ((if n == 0 && !closeLate then "ok" else s!"missed:{n}:{closeLate}") :: acc)
+  | h, .stop oid ttl ad now :: ops, acc =>
+    match findTask h.tasks oid ttl ad now with
+    | none => runOps h ops ("ok" :: acc)
+    | some t =>
+      if ((t.step (registeredAs asciiLower h.reg t.svc t.oid)).2).isSome then runOps h ops ("would-send" :: acc)
+      else runOps { h with tasks := dropTask h.tasks oid ttl ad now } ops ("ok" :: acc)
   | h, .blk b now :: ops, acc =>
     -- the due time of the task about to be stepped
     let due : Option Int := none
